@@ -64,24 +64,42 @@ func (u upd) apply(st *sessions.SessionState) {
 }
 
 // inner is the scripted provider core shared by both services: every coalesced method
-// announces that it began, blocks until the driver hands it an answer, applies the answer's
-// update to the session it was given and returns.
-type inner struct{ e *engine }
+// writes "begin" to the execution log, announces itself, blocks until the driver hands it an
+// answer, applies the answer's update to the session it was given, writes "end" and returns.
+type inner struct {
+	e   *engine
+	wid int
+}
 
 func (f *inner) begin(st *sessions.SessionState) wAnswer {
 	ex := &exec{release: make(chan interface{}, 1)}
+	f.e.logBegin(ex)
 	f.e.starts <- ex
 	a := (<-ex.release).(wAnswer)
 	a.u.apply(st)
+	f.e.logEnd(ex)
 	return a
 }
 
 var strayW = wAnswer{v: wValue{kind: "nil"}, eid: 998, err: errors.New("stray")}
 
-// ----- sso-proxy -----
-type proxyInner struct{ inner }
+func mustURL(s string) *url.URL {
+	u, err := url.Parse(s)
+	Must(err)
+	return u
+}
 
-func (f *proxyInner) Data() *proxyp.ProviderData { return &proxyp.ProviderData{} }
+// ----- sso-proxy -----
+// proxy.New builds, for EVERY upstream, newProvider(...) = NewSingleFlightProvider(providers.New(
+// type, providerData, statsd), statsd) with the same provider URL, slug and client id
+// (internal/proxy/proxy.go:30-38, options.go:162-193) and calls it with that upstream's
+// AllowedGroups (oauthproxy.go:619). The world does the same with a scripted inner provider.
+type proxyInner struct {
+	inner
+	data *proxyp.ProviderData
+}
+
+func (f *proxyInner) Data() *proxyp.ProviderData { return f.data }
 func (f *proxyInner) Redeem(string, string) (*sessions.SessionState, error) {
 	return nil, errors.New("unused")
 }
@@ -105,63 +123,128 @@ func (f *proxyInner) RefreshSession(s *sessions.SessionState, allowed []string) 
 	return a.v.b, a.err
 }
 
+// the allowed groups of the upstreams of the deployment (upstream i <-> wrapper object i)
+var upstreamAllowed = [][]string{{"team-a"}, {"team-b"}, {"team-a", "team-c"}}
+
 type proxyWorld struct {
-	p *proxyp.SingleFlightProvider
+	ps []*proxyp.SingleFlightProvider
 }
 
-func newProxyWorld(e **engine) *proxyWorld {
-	in := &proxyInner{}
-	var sc *statsd.Client // nil client: every statsd call is a no-op
-	w := &proxyWorld{p: proxyp.NewSingleFlightProvider(in, sc)}
-	*e = newEngine(proxyp.VerifGroup(w.p), strayW)
-	in.e = *e
+func newProxyWorld(e **engine, n int) *proxyWorld {
+	w := &proxyWorld{}
+	var inners []*proxyInner
+	for i := 0; i < n; i++ {
+		in := &proxyInner{data: &proxyp.ProviderData{
+			ProviderName: "sso", ProviderSlug: "sso", ClientID: "client-id", ClientSecret: "client-secret",
+			ProviderURL: mustURL("https://sso-auth.example.com"), ProviderURLInternal: mustURL("https://sso-auth.internal.example.com"),
+		}}
+		in.wid = i
+		inners = append(inners, in)
+		var sc *statsd.Client // nil client: every statsd call is a no-op
+		w.ps = append(w.ps, proxyp.NewSingleFlightProvider(in, sc))
+	}
+	*e = newEngine(w.groups(), strayW)
+	for _, in := range inners {
+		in.e = *e
+	}
 	return w
 }
-func (w *proxyWorld) group() *singleflight.Group { return proxyp.VerifGroup(w.p) }
-func (w *proxyWorld) svc() string                  { return "Proxy" }
+func (w *proxyWorld) groups() []*singleflight.Group {
+	var gs []*singleflight.Group
+	for _, p := range w.ps {
+		gs = append(gs, proxyp.VerifGroup(p))
+	}
+	return gs
+}
+func (w *proxyWorld) svc() string { return "Proxy" }
 func (w *proxyWorld) call(q *question, id int) wOut {
-	allowed := []string{"g1"}
+	p := w.ps[q.wid]
+	allowed := append([]string(nil), q.allowed...)
 	switch q.endpoint {
 	case "PValidate":
 		st := toState(q.s)
-		ok := w.p.ValidateSessionState(st, allowed)
+		ok := p.ValidateSessionState(st, allowed)
 		return wOut{v: wValue{kind: "bool", b: ok}, sess: fromState(st)}
 	case "PRefresh":
 		st := toState(q.s)
-		ok, err := w.p.RefreshSession(st, allowed)
+		ok, err := p.RefreshSession(st, allowed)
 		return wOut{v: wValue{kind: "bool", b: ok}, eid: errID(err), sess: fromState(st)}
 	case "PUserGroups":
-		gs, err := w.p.UserGroups(q.email, append([]string(nil), q.groups...), "tok"+Itoa(id))
+		gs, err := p.UserGroups(q.email, append([]string(nil), q.groups...), "tok"+Itoa(id))
 		return wOut{v: wValue{kind: "groups", groups: gs}, eid: errID(err)}
 	}
 	panic("proxy world: unknown endpoint " + q.endpoint)
 }
 
+// genMode: 0 one method, 1 methods mixed at random, 2 every caller presents the SAME session /
+// e-mail to different methods (re-entries of a key while an execution of it is in flight),
+// 3 like 2 but spread over several wrapper objects (the same cookie on several upstreams).
 func proxyCase(r *Rng, maxCallers int, windowP float64, script func(e *engine, mk func(id int, q *question) *caller)) Case {
-	var e *engine
-	w := newProxyWorld(&e)
-	kind := r.Intn(3)
-	genQ := func() *question {
-		switch kind {
-		case 0:
-			return &question{endpoint: "PValidate", s: genSession(r)}
-		case 1:
-			return &question{endpoint: "PRefresh", s: genSession(r)}
+	return proxyCaseN(r, 0, maxCallers, windowP, script)
+}
+
+func proxyCaseN(r *Rng, nWrappers int, maxCallers int, windowP float64, script func(e *engine, mk func(id int, q *question) *caller)) Case {
+	mode := r.Intn(4)
+	if nWrappers == 0 {
+		nWrappers = 1
+		if script == nil && (mode == 3 || r.Chance(0.25)) {
+			nWrappers = 2 + r.Intn(2)
 		}
-		return genGroupsQuestion(r, "PUserGroups")
 	}
-	if r.Chance(0.3) { // mixed endpoints on one provider
-		genQ0 := genQ
-		genQ = func() *question { kind = r.Intn(3); return genQ0() }
+	if script == nil && mode >= 2 && maxCallers < 5 {
+		maxCallers = 5 // enough callers for re-entries
 	}
-	return runWrapper(w, e, r, maxCallers, windowP, genQ, func(q *question) wAnswer { return genAnswerFor(r, q) }, script)
+	var e *engine
+	w := newProxyWorld(&e, nWrappers)
+	kind := r.Intn(3)
+	pair := [2]int{r.Intn(3), r.Intn(3)}
+	one := genSession(r)
+	genQ := func() *question {
+		wid := r.Intn(nWrappers)
+		if mode == 1 {
+			kind = r.Intn(3)
+		} else if mode >= 2 { // two methods of the same session, re-entered again and again
+			kind = pair[r.Intn(2)]
+		}
+		var q *question
+		switch kind {
+		case 0, 1:
+			s := genSession(r)
+			if mode >= 2 {
+				c := *one
+				s = &c
+			}
+			q = &question{endpoint: []string{"PValidate", "PRefresh"}[kind], s: s, allowed: append([]string(nil), upstreamAllowed[wid]...)}
+			if r.Chance(0.06) { // one wrapper object handed a foreign group set (not deployment-shaped): C16-K3
+				q.allowed = append([]string(nil), upstreamAllowed[(wid+1)%len(upstreamAllowed)]...)
+			}
+		default:
+			q = genGroupsQuestion(r, "PUserGroups")
+			if mode >= 2 {
+				q.email = one.email
+			}
+		}
+		q.wid = wid
+		return q
+	}
+	genA := func(q *question) wAnswer {
+		a := genAnswerFor(r, q)
+		return a
+	}
+	return runWrapper(w, e, r, maxCallers, windowP, genQ, genA, script)
 }
 
 // ----- sso-auth -----
-type authInner struct{ inner }
+// auth's options build one SingleFlightProvider per configured provider (internal/auth/options.go:
+// 43-72, newProvider per provider config; NewAuthenticatorMux builds one Authenticator around
+// each): distinct slugs, each its own group.
+type authInner struct {
+	inner
+	data *authp.ProviderData
+}
 
 func (f *authInner) SetStatsdClient(*statsd.Client) {}
-func (f *authInner) Data() *authp.ProviderData      { return &authp.ProviderData{} }
+func (f *authInner) Data() *authp.ProviderData      { return f.data }
 func (f *authInner) Redeem(string, string) (*sessions.SessionState, error) {
 	return nil, errors.New("unused")
 }
@@ -191,62 +274,118 @@ func (f *authInner) RefreshAccessToken(rt string) (string, time.Duration, error)
 }
 
 type authWorld struct {
-	p *authp.SingleFlightProvider
+	ps []*authp.SingleFlightProvider
 }
 
-func newAuthWorld(e **engine) *authWorld {
-	in := &authInner{}
-	w := &authWorld{p: authp.NewSingleFlightProvider(in)}
-	*e = newEngine(authp.VerifGroup(w.p), strayW)
-	in.e = *e
+func newAuthWorld(e **engine, n int) *authWorld {
+	w := &authWorld{}
+	var inners []*authInner
+	for i := 0; i < n; i++ {
+		slug := []string{"google", "okta", "cognito"}[i%3]
+		in := &authInner{data: &authp.ProviderData{ProviderName: slug, ProviderSlug: slug, ClientID: "idp-client-" + slug,
+			ClientSecret: "idp-secret", ValidateURL: mustURL("https://idp-" + slug + ".example.com/validate")}}
+		in.wid = i
+		inners = append(inners, in)
+		w.ps = append(w.ps, authp.NewSingleFlightProvider(in))
+	}
+	*e = newEngine(w.groups(), strayW)
+	for _, in := range inners {
+		in.e = *e
+	}
 	return w
 }
-func (w *authWorld) group() *singleflight.Group { return authp.VerifGroup(w.p) }
-func (w *authWorld) svc() string                  { return "Auth" }
+func (w *authWorld) groups() []*singleflight.Group {
+	var gs []*singleflight.Group
+	for _, p := range w.ps {
+		gs = append(gs, authp.VerifGroup(p))
+	}
+	return gs
+}
+func (w *authWorld) svc() string { return "Auth" }
 func (w *authWorld) call(q *question, id int) wOut {
+	p := w.ps[q.wid]
 	switch q.endpoint {
 	case "AValidate":
 		st := toState(q.s)
-		ok := w.p.ValidateSessionState(st)
+		ok := p.ValidateSessionState(st)
 		return wOut{v: wValue{kind: "bool", b: ok}, sess: fromState(st)}
 	case "ARefresh":
 		st := toState(q.s)
-		ok, err := w.p.RefreshSessionIfNeeded(st)
+		ok, err := p.RefreshSessionIfNeeded(st)
 		return wOut{v: wValue{kind: "bool", b: ok}, eid: errID(err), sess: fromState(st)}
 	case "ARevoke":
 		st := toState(q.s)
-		err := w.p.Revoke(st)
+		err := p.Revoke(st)
 		return wOut{v: wValue{kind: "nil"}, eid: errID(err), sess: fromState(st)}
 	case "AGroupMembership":
-		gs, err := w.p.ValidateGroupMembership(q.email, append([]string(nil), q.groups...), "tok"+Itoa(id))
+		gs, err := p.ValidateGroupMembership(q.email, append([]string(nil), q.groups...), "tok"+Itoa(id))
 		return wOut{v: wValue{kind: "groups", groups: gs}, eid: errID(err)}
 	case "ARefreshAccessToken":
-		tok, d, err := w.p.RefreshAccessToken(q.token)
+		tok, d, err := p.RefreshAccessToken(q.token)
 		return wOut{v: wValue{kind: "token", tok: tok, expires: int64(d / time.Second)}, eid: errID(err)}
 	}
 	panic("auth world: unknown endpoint " + q.endpoint)
 }
 
 func authCase(r *Rng, maxCallers int, windowP float64, script func(e *engine, mk func(id int, q *question) *caller)) Case {
-	var e *engine
-	w := newAuthWorld(&e)
-	kind := r.Intn(5)
-	genQ := func() *question {
-		switch kind {
-		case 0:
-			return &question{endpoint: "AValidate", s: genSession(r)}
-		case 1:
-			return &question{endpoint: "ARefresh", s: genSession(r)}
-		case 2:
-			return &question{endpoint: "ARevoke", s: genSession(r)}
-		case 3:
-			return genGroupsQuestion(r, "AGroupMembership")
+	return authCaseN(r, 0, maxCallers, windowP, script)
+}
+
+func authCaseN(r *Rng, nWrappers int, maxCallers int, windowP float64, script func(e *engine, mk func(id int, q *question) *caller)) Case {
+	mode := r.Intn(4)
+	if nWrappers == 0 {
+		nWrappers = 1
+		if script == nil && (mode == 3 || r.Chance(0.25)) {
+			nWrappers = 2 + r.Intn(2)
 		}
-		return &question{endpoint: "ARefreshAccessToken", token: r.Pick([]string{"rt1", "rt2"})}
 	}
+	if script == nil && mode >= 2 && maxCallers < 5 {
+		maxCallers = 5 // enough callers for re-entries
+	}
+	var e *engine
+	w := newAuthWorld(&e, nWrappers)
+	kind := r.Intn(5)
+	trio := []int{r.Intn(4), r.Intn(4)}
 	if r.Chance(0.3) {
-		genQ0 := genQ
-		genQ = func() *question { kind = r.Intn(5); return genQ0() }
+		trio = append(trio, r.Intn(5))
 	}
-	return runWrapper(w, e, r, maxCallers, windowP, genQ, func(q *question) wAnswer { return genAnswerFor(r, q) }, script)
+	one := genSession(r)
+	genQ := func() *question {
+		wid := r.Intn(nWrappers)
+		if mode == 1 {
+			kind = r.Intn(5)
+		} else if mode >= 2 { // two (sometimes three) methods of the same session, re-entered again and again
+			kind = trio[r.Intn(len(trio))]
+		}
+		var q *question
+		switch kind {
+		case 0, 1, 2:
+			s := genSession(r)
+			if mode >= 2 {
+				c := *one
+				s = &c
+			}
+			q = &question{endpoint: []string{"AValidate", "ARefresh", "ARevoke"}[kind], s: s}
+		case 3:
+			q = genGroupsQuestion(r, "AGroupMembership")
+			if mode >= 2 {
+				q.email = one.email
+			}
+		default:
+			q = &question{endpoint: "ARefreshAccessToken", token: r.Pick([]string{"rt1", "rt2"})}
+			if mode >= 2 {
+				q.token = one.refresh
+			}
+		}
+		q.wid = wid
+		return q
+	}
+	genA := func(q *question) wAnswer {
+		a := genAnswerFor(r, q)
+		if mode >= 2 && a.eid != 0 && r.Chance(0.7) { // mostly successful calls (a successful Revoke, ...)
+			a.eid, a.err = 0, nil
+		}
+		return a
+	}
+	return runWrapper(w, e, r, maxCallers, windowP, genQ, genA, script)
 }
